@@ -33,6 +33,16 @@ def strKeysDistinct : List (PyVal × PyVal) → Bool
   | (.str k, _) :: rest => !(rest.any fun kv => match kv.1 with | .str k' => k == k' | _ => false) && strKeysDistinct rest
   | _ :: _ => false
 
+/-- all keys are (non-bool) ints and pairwise different -/
+def intKeysDistinct : List (PyVal × PyVal) → Bool
+  | [] => true
+  | (.int i, _) :: rest => !(rest.any fun kv => match kv.1 with | .int j => i == j | _ => true) && intKeysDistinct rest
+  | _ :: _ => false
+
+def isIntDecl : FieldDecl → Bool
+  | .integer _ => true
+  | _ => false
+
 def isNoneDecl : FieldDecl → Bool
   | .noneF => true
   | _ => false
@@ -110,10 +120,13 @@ def inFrag (O : Oracles) : FieldDecl → PyVal → Bool
     !imm && (match v with
       | .set fr xs => !fr && PyVal.pyNodup xs && !(xs.any unhashable) && xs.all (inFrag O f)
       | _ => false)
-  /- a Map with String keys: distinct string keys (as in every real dict), values in the fragment -/
+  /- a Map with String keys, or with Integer keys (as a PYTHON document: json.dumps would turn the int keys into
+     strings, see map_int_keys_text_counterexample): distinct keys (as in every real dict), values in the fragment -/
   | .mapOf kf vf _, v =>
-    isStringDecl kf && (match v with
-      | .dict kvs => strKeysDistinct kvs && kvs.all (fun kv => inFrag O vf kv.2)
+    (match v with
+      | .dict kvs =>
+        ((isStringDecl kf && strKeysDistinct kvs) || (isIntDecl kf && intKeysDistinct kvs))
+          && kvs.all (fun kv => inFrag O vf kv.2)
       | _ => false)
   | _, _ => false
 termination_by structural f _ => f
@@ -136,16 +149,36 @@ def inFragAny (O : Oracles) : List FieldDecl → PyVal → Bool
 termination_by structural fs _ => fs
 
 /-- the attribute list of an instance as the constructor builds it: declared fields only, in
-    constructor order, each set value not None, conforming and in the fragment; each unset field
-    may stay unset -/
+    constructor order, each set value not None, conforming and in the fragment (or an ImmutableSet /
+    StructureReference attribute, `attrSpecial`); each unset field may stay unset -/
 def canonAttrs (O : Oracles) (c : ClassOpts) (defaults : List (String × PyVal)) :
     List (String × FieldDecl) → List (String × PyVal) → Bool
   | [], attrs => attrs.isEmpty
   | (n, _) :: rest, [] => absentOk c defaults n && canonAttrs O c defaults rest []
   | (n, f) :: rest, (m, v) :: as =>
-    if m == n then !v.isNone && conforms O f v && inFrag O f v && canonAttrs O c defaults rest as
+    if m == n then !v.isNone && ((conforms O f v && inFrag O f v) || attrSpecial O f v) && canonAttrs O c defaults rest as
     else absentOk c defaults n && canonAttrs O c defaults rest ((m, v) :: as)
 termination_by structural fs _ => fs
+
+/-- field kinds whose STORED form is not what the deserializer hands to the constructor, as the value of a
+    class attribute: an ImmutableSet stores a frozenset (the deserializer builds a set, the constructor
+    freezes it) and a StructureReference stores an instance of its inline class (the deserializer hands on the
+    validated keyword arguments as a dict, the constructor builds the instance) -/
+def attrSpecial (O : Oracles) : FieldDecl → PyVal → Bool
+  | .setOf imm f sz, v =>
+    imm && (match v with
+      | .set fr xs => fr && sizeOk sz xs.length && PyVal.pyNodup xs && !(xs.any unhashable)
+          && xs.all (fun x => conforms O f x && inFrag O f x)
+      | _ => false)
+  | .struct c fields defaults, v =>
+    c.inline && decide ((fields.map (·.1)).Nodup)
+      && (match v with
+          | .inst n attrs =>
+            n == c.name && c.required.all (fun r => (lookup r attrs).isSome)
+              && canonAttrs O c defaults fields attrs
+          | _ => false)
+  | _, _ => false
+termination_by structural f _ => f
 
 def inFragZip (O : Oracles) : List FieldDecl → List PyVal → Bool
   | [], _ => true
